@@ -54,7 +54,7 @@ var C02 = mk("C02",
 	base, 150, 5000, monitorC02)
 
 var conv = Profile{Targets: 2, Sets: 5, Faults: true, Verdicts: false, DevErrors: true, Injections: false,
-	Rollbacks: true, Serializable: false, Persistent: false, Deletes: true, MaxSteps: 150, Drain: true, CleanPct: 75}
+	Rollbacks: true, Serializable: false, Persistent: false, Deletes: true, MaxSteps: 150, Drain: true, CleanPct: 75, Inter: true}
 
 // C04: histories with device/connection faults, driven to the fixed point with everything connected.
 var C04 = mk("C04",
